@@ -6,6 +6,7 @@ mod engine;
 mod hist;
 mod model;
 mod props;
+mod sock;
 mod wrap;
 
 use engine::Tier;
